@@ -120,7 +120,13 @@ func styleProbes(c *sim.Ctx, a *ref.AP, frame []byte, fm []ref.Field) {
 
 func runC03(c *sim.Ctx) *sim.Violation {
 	t := c.T
-	a := gen.Packet(t, specCfg(c))
+	var a *ref.AP
+	if t.Bool(1, 150) {
+		a = gen.Bulk(t, c.Thorough) // thousands of tiny list elements, order and duplicates must survive
+		c.Count("probe.bulk-list-frame")
+	} else {
+		a = gen.Packet(t, specCfg(c))
+	}
 	typ := a.TypeName()
 	frame, fm := ref.Encode(a)
 	// the stub must agree with itself before it may judge anyone
